@@ -379,3 +379,233 @@ func (c *Ctx) initGuardsActivationsLen(oi *opInfo, need int64) bool {
 	}
 	return false
 }
+
+// ---------------------------------------------------------------------------------------------
+// R27 — attributes are read with the getter of their ONNX type and default to the ONNX default
+// ---------------------------------------------------------------------------------------------
+
+type attrSpec struct {
+	field  string // receiver field the attribute ends up in
+	getter string // AttributeProto getter of the attribute's ONNX type
+	dflt   string // ONNX default as Go constant text ("" = no default / not checked); lists as "[a b]"
+}
+
+// onnxAttrSpec: opset-13 attribute types and defaults of the operators with attributes (ONNX Operators.md).
+var onnxAttrSpec = map[string][]attrSpec{
+	"Gemm":            {{"alpha", "GetF", "1"}, {"beta", "GetF", "1"}, {"transA", "GetI", "false"}, {"transB", "GetI", "false"}},
+	"Flatten":         {{"axis", "GetI", "1"}},
+	"ArgMax":          {{"axis", "GetI", "0"}, {"keepDims", "GetI", "true"}, {"selectLastIndex", "GetI", "false"}},
+	"Softmax":         {{"axis", "GetI", "-1"}},
+	"LogSoftmax":      {{"axis", "GetI", "-1"}},
+	"Concat":          {{"axis", "GetI", ""}},
+	"Gather":          {{"axis", "GetI", "0"}},
+	"ReduceMax":       {{"axes", "GetInts", "[]"}, {"keepDims", "GetI", "true"}},
+	"ReduceMin":       {{"axes", "GetInts", "[]"}, {"keepDims", "GetI", "true"}},
+	"Conv":            {{"autoPad", "GetS", `"NOTSET"`}, {"dilations", "GetInts", ""}, {"kernelShape", "GetInts", ""}, {"pads", "GetInts", ""}, {"strides", "GetInts", ""}, {"group", "GetI", ""}},
+	"GRU":             {{"linearBeforeReset", "GetI", "false"}, {"hiddenSize", "GetI", ""}, {"activations", "GetStrings", `["sigmoid" "tanh"]`}},
+	"LSTM":            {{"inputForget", "GetI", "false"}, {"hiddenSize", "GetI", ""}, {"activations", "GetStrings", `["sigmoid" "tanh" "tanh"]`}},
+	"RNN":             {{"hiddenSize", "GetI", ""}, {"activations", "GetStrings", `["tanh"]`}},
+	"Cast":            {{"to", "GetI", ""}},
+	"Transpose":       {{"perm", "GetInts", ""}},
+	"LinearRegressor": {{"targets", "GetI", "1"}, {"coefficients", "GetFloats", ""}, {"intercepts", "GetFloats", ""}},
+	"Scaler":          {{"offset", "GetFloats", ""}, {"scale", "GetFloats", ""}},
+}
+
+var attrGetters = []string{"GetI", "GetF", "GetS", "GetT", "GetInts", "GetFloats", "GetStrings", "GetG", "GetTensors"}
+
+func ruleAttrSpec(c *Ctx, prop string) {
+	scope := map[string][]string{
+		"C04": {"Gemm", "LinearRegressor", "Scaler"},
+		"C05": {"Conv"},
+		"C06": {"RNN", "GRU", "LSTM"},
+		"C07": {"Flatten"},
+		"C08": {"Concat", "Gather", "Transpose"},
+		"C09": {"ArgMax", "ReduceMax", "ReduceMin", "Softmax", "LogSoftmax"},
+		"C11": {"Cast"},
+		"C16": {"Gemm", "Conv", "GRU", "LSTM", "RNN", "Softmax"},
+	}
+	n := 0
+	for _, name := range scope[prop] {
+		oi := c.opByName(name)
+		if oi == nil {
+			continue
+		}
+		init := oi.methods["Init"]
+		fd := c.astFuncDecl(init)
+		if fd == nil {
+			continue
+		}
+		_ = c.typesInfo(fnPkgPath(init))
+		recvName := ""
+		if fd.Recv != nil && len(fd.Recv.List) == 1 && len(fd.Recv.List[0].Names) == 1 {
+			recvName = fd.Recv.List[0].Names[0].Name
+		}
+		// assignments recv.field = rhs in Init (and in helpers of the same receiver that Init calls, one level)
+		type asg struct {
+			rhs ast.Expr
+			pos token.Pos
+		}
+		byField := map[string][]asg{}
+		collect := func(body *ast.BlockStmt, rn string) {
+			ast.Inspect(body, func(nd ast.Node) bool {
+				as, ok := nd.(*ast.AssignStmt)
+				if !ok {
+					return true
+				}
+				for i, l := range as.Lhs {
+					sel, ok := l.(*ast.SelectorExpr)
+					if !ok {
+						continue
+					}
+					if id, ok := sel.X.(*ast.Ident); ok && id.Name == rn {
+						rhs := as.Rhs[0]
+						if len(as.Rhs) == len(as.Lhs) {
+							rhs = as.Rhs[i]
+						}
+						byField[sel.Sel.Name] = append(byField[sel.Sel.Name], asg{rhs, as.Pos()})
+					}
+				}
+				return true
+			})
+		}
+		collect(fd.Body, recvName)
+		// constructor literal
+		ctorVals := map[string]string{}
+		ctorSeen := false
+		if ctor := c.constructorOf(oi); ctor != nil {
+			if cfd := c.astFuncDecl(ctor); cfd != nil {
+				cinfo := c.typesInfo(fnPkgPath(ctor))
+				ast.Inspect(cfd.Body, func(nd ast.Node) bool {
+					cl, ok := nd.(*ast.CompositeLit)
+					if !ok {
+						return true
+					}
+					if tv, ok := cinfo.Types[cl]; !ok || !types.Identical(tv.Type, oi.named) {
+						return true
+					}
+					ctorSeen = true
+					for _, el := range cl.Elts {
+						kv, ok := el.(*ast.KeyValueExpr)
+						if !ok {
+							continue
+						}
+						k, ok := kv.Key.(*ast.Ident)
+						if !ok {
+							continue
+						}
+						ctorVals[k.Name] = constText(cinfo, kv.Value)
+					}
+					return false
+				})
+			}
+		}
+		for _, sp := range onnxAttrSpec[name] {
+			key := fmt.Sprintf("R27:attr:%s.%s", name, sp.field)
+			as := byField[sp.field]
+			if len(as) == 0 {
+				c.note("R27", key, c.pos(init.Pos()), "field "+sp.field+" is not assigned in Init: rule not applicable to this factoring")
+				continue
+			}
+			n++
+			bad, site := "", c.pos(as[0].pos)
+			for _, a := range as {
+				txt := types.ExprString(a.rhs)
+				var used []string
+				for _, g := range attrGetters {
+					if strings.Contains(txt, "."+g+"()") {
+						used = append(used, g)
+					}
+				}
+				if len(used) == 0 {
+					continue // derived from another local (e.g. a converted list): judged where that local is read
+				}
+				if len(used) != 1 || used[0] != sp.getter {
+					bad = fmt.Sprintf("attribute field %s is filled with %s(), the attribute's ONNX type is read with %s(): the other getter returns the zero value, i.e. the attribute is silently ignored", sp.field, strings.Join(used, ","), sp.getter)
+					site = c.pos(a.pos)
+				}
+			}
+			if bad == "" && sp.dflt != "" && ctorSeen {
+				got, ok := ctorVals[sp.field]
+				if !ok {
+					got = zeroText(oi.named, sp.field)
+				}
+				if got != sp.dflt {
+					bad = fmt.Sprintf("the constructor gives %s the default %s; ONNX's default for the absent attribute is %s", sp.field, got, sp.dflt)
+					if ctor := c.constructorOf(oi); ctor != nil {
+						site = c.pos(ctor.Pos())
+					}
+				}
+			}
+			c.decide(bad == "", "R27", key, site, fmt.Sprintf("read with %s(); default %s", sp.getter, firstNonEmpty(sp.dflt, "(none)")), bad)
+		}
+	}
+	c.counts["R27.attribute_fields"] += n
+}
+
+// constText renders a constructor value: constants by value, string/int lists element-wise.
+func constText(info *types.Info, e ast.Expr) string {
+	if tv, ok := info.Types[e]; ok && tv.Value != nil {
+		switch tv.Value.Kind() {
+		case constant.Float:
+			f, _ := constant.Float64Val(tv.Value)
+			return fmt.Sprint(f)
+		}
+		return tv.Value.ExactString()
+	}
+	if id, ok := e.(*ast.Ident); ok && (id.Name == "true" || id.Name == "false") {
+		return id.Name
+	}
+	if cl, ok := e.(*ast.CompositeLit); ok {
+		var parts []string
+		for _, el := range cl.Elts {
+			parts = append(parts, constText(info, el))
+		}
+		return "[" + strings.Join(parts, " ") + "]"
+	}
+	return types.ExprString(e)
+}
+
+func zeroText(named *types.Named, field string) string {
+	st, ok := named.Underlying().(*types.Struct)
+	if !ok {
+		return "?"
+	}
+	for i := 0; i < st.NumFields(); i++ {
+		if st.Field(i).Name() != field {
+			continue
+		}
+		switch t := st.Field(i).Type().Underlying().(type) {
+		case *types.Basic:
+			switch {
+			case t.Info()&types.IsBoolean != 0:
+				return "false"
+			case t.Info()&types.IsString != 0:
+				return `""`
+			default:
+				return "0"
+			}
+		case *types.Slice:
+			return "[]"
+		}
+	}
+	return "?"
+}
+
+// constructorOf: the registry constructor (func() ops.Operator) returning this operator type.
+func (c *Ctx) constructorOf(oi *opInfo) *ssa.Function {
+	for _, f := range c.libFns {
+		if f.Parent() != nil || f.Signature.Recv() != nil || f.Signature.Params().Len() != 0 || f.Signature.Results().Len() != 1 || fnPkgPath(f) != fnPkgPath(oi.methods["Init"]) {
+			continue
+		}
+		for _, r := range returnsOf(f) {
+			v := r.Results[0]
+			if mi, ok := v.(*ssa.MakeInterface); ok {
+				v = mi.X
+			}
+			if n, _ := structOfPtr(v.Type()); n == oi.named {
+				return f
+			}
+		}
+	}
+	return nil
+}
